@@ -20,12 +20,25 @@ enum SinkEv {
 
 pub fn sink_rules(case: &Case, h: &Hist) -> Vec<Violation> {
     let mut v = Vec::new();
+    // An output shared by several models through clones is one connection with several writers:
+    // order is only defined per (connection, sending model). Streams are therefore identified by
+    // the connection id plus a code of the sender of the message.
+    let mut sender: BTreeMap<u64, u32> = BTreeMap::new();
+    for s in &h.sends {
+        let code = match s.actor {
+            Actor::Node(n) => 1 + n as u32,
+            Actor::Driver => 0,
+            Actor::Aux(a) => 2_000 + a as u32,
+        };
+        sender.insert(s.msg, code);
+    }
+    let stream = |msg: u64, via: u32| -> u32 { via.wrapping_add(sender.get(&msg).copied().unwrap_or(0).wrapping_mul(1_000_000)) };
     for (si, spec) in case.sinks.iter().enumerate() {
         let si = si as u16;
         let mut evs: Vec<(u64, SinkEv)> = Vec::new();
         for (seq, s, msg, via, _salt) in &h.sink_writes {
             if *s == si {
-                evs.push((*seq, SinkEv::Write { msg: *msg, cid: *via }));
+                evs.push((*seq, SinkEv::Write { msg: *msg, cid: stream(*msg, *via) }));
             }
         }
         for (seq, s, open) in &h.sink_ctl {
@@ -35,7 +48,7 @@ pub fn sink_rules(case: &Case, h: &Hist) -> Vec<Violation> {
         }
         for (seq, s, asked, items) in &h.sink_reads {
             if *s == si {
-                evs.push((*seq, SinkEv::Read { asked: *asked, items: items.clone() }));
+                evs.push((*seq, SinkEv::Read { asked: *asked, items: items.iter().map(|(m, via)| (*m, stream(*m, *via))).collect() }));
             }
         }
         evs.sort_by_key(|e| e.0);
